@@ -204,7 +204,7 @@ public:
       {
         auto& level0 = _wheels[0];
         auto& bucket = level0.buckets[level0.currentTick & _tickMask];
-        collectFromBucket(bucket, toFire);
+        collectFromBucket(bucket, now, toFire);
         level0.currentTick++;
 
         if ((level0.currentTick & _tickMask) == 0)
@@ -535,23 +535,36 @@ private:
     _wheels[entry->wheelLevel].buckets[entry->bucketIndex].unlink(entry);
   }
 
-  /// \brief Collect ALL entries from the current bucket for firing.
-  /// All entries in a level-0 bucket are due to fire when that bucket's
-  /// tick arrives — the deadline check is a safety net but should not
-  /// skip entries that were placed correctly. Entries whose deadline
-  /// is slightly in the future (placed between ticks) still fire —
-  /// this matches the tick-granularity contract.
-  void collectFromBucket(Bucket& bucket,
+  /// \brief Collect the due entries of the current level-0 bucket for firing.
+  /// An entry is due when its deadline is at most one tick ahead of `now`
+  /// (tick-granularity contract: entries placed between ticks may fire up
+  /// to one tick early). An entry that is further ahead was placed relative
+  /// to a wheel position that lagged the clock (scheduled or cascaded while
+  /// advance() was catching up) or its delay wrapped around the wheel; it is
+  /// re-inserted by its remaining time instead of fired. The chain is
+  /// detached first because a re-inserted entry may land in this same bucket.
+  void collectFromBucket(Bucket& bucket, TimePoint now,
                          std::vector<std::pair<TimerId, Callback>>& toFire)
   {
-    auto* entry = bucket.head;
+    Bucket chain = bucket;
+    bucket = Bucket{};
+    auto* entry = chain.head;
     while (entry)
     {
       auto* next = entry->next;
-      bucket.unlink(entry);
-      _entryMap.erase(entry->id);
-      toFire.emplace_back(entry->id, std::move(entry->callback));
-      freeEntry(entry);
+      chain.unlink(entry);
+      if (entry->deadline > now + _tickDuration)
+      {
+        auto remaining = std::chrono::duration_cast<std::chrono::milliseconds>(
+          entry->deadline - now);
+        insertEntry(entry, remaining);
+      }
+      else
+      {
+        _entryMap.erase(entry->id);
+        toFire.emplace_back(entry->id, std::move(entry->callback));
+        freeEntry(entry);
+      }
       entry = next;
     }
   }
